@@ -443,6 +443,20 @@ example : ((([Nav.base, Nav.index 3, Nav.field "y", Nav.deref]).foldl Comp.nav
 example : concat [⟨false, true⟩, ⟨true, false⟩, ⟨true, false⟩] = ⟨false, 1, []⟩ := by decide
 example : concat [⟨false, false⟩, ⟨true, false⟩, ⟨true, false⟩] = ⟨true, 3, [1, 2]⟩ := by decide
 
+/-- Main on the faulty history: status 1, no pass executed, no printer, one diagnostic line -/
+example : main 0 (stdPasses (fun _ => 15) (run Ctx.init exBad)) (run Ctx.init exBad) = ⟨1, 0, [], 1⟩ := by decide
+/-- … and with an error limit of 2 on five errors: two lines and "too many errors" -/
+example : logLines 2 5 = 3 := by decide
+/-- Main on the valid history: status 0, all three passes, both printers -/
+example : main 0 (stdPasses (fun _ => 15) (run Ctx.init exGood)) (run Ctx.init exGood) = ⟨0, 3, [1, 2], 0⟩ := by decide
+/-- the acceptor rejects a panic, a written output next to a fault, and a dropped message -/
+example : c18Accept 0 [] ⟨0, 0, 10, 10, 0, 1, none⟩ = false := by decide
+example : c18Accept 1 [] ⟨1, 1, 10, 0, 1, 0, none⟩ = false := by decide
+example : c18Accept 2 [] ⟨1, 1, 0, 0, 1, 0, none⟩ = false := by decide
+example : c18Accept 2 [] ⟨2, 1, 0, 0, 2, 0, none⟩ = true := by decide
+example : c18Accept 0 [.dupLabel] ⟨0, 1, 0, 0, 1, 0, some .dupLabel⟩ = true := by decide
+example : c18Accept 0 [.dupLabel] ⟨0, 0, 9, 9, 0, 0, none⟩ = false := by decide
+
 /-- compile-time faults of a concrete function: undefined label and a label at the end -/
 example : fnPassFaults (fun _ => 15)
     { name := "f", nodes := [.instr ⟨1, [], [.lbl "x"]⟩, .instr ⟨2, [], [.lbl "e"]⟩, .label "e"] }
